@@ -53,14 +53,14 @@ CONSTANT Block     \* statements taken in ONE step of TLC (a run of consecutive 
                    \* length; the statements of a block are executed one after the other by RunBlock - the same
                    \* StmtSucc, fewer states to fingerprint and queue).  Diagnosis (OffSet # {}) uses Block = 1.
 
-VARIABLES base, ca, ab, mp, cw, tl, sy, en,
+VARIABLES base, ca, ab, mp, cw, tl, sy, en, au,
           ph, o, d, glob, keptq, cur, pass1, lastpe, resid, lastst, prevdiag
-mine == <<base, ca, ab, mp, cw, tl, sy, en>>
-vars == <<l, base, ca, ab, mp, cw, tl, sy, en, ph, o, d, glob, keptq, cur, pass1, lastpe, resid, lastst, prevdiag>>
+mine == <<base, ca, ab, mp, cw, tl, sy, en, au>>
+vars == <<l, base, ca, ab, mp, cw, tl, sy, en, au, ph, o, d, glob, keptq, cur, pass1, lastpe, resid, lastst, prevdiag>>
 \* The two trees of the symbol table are kept out of the fingerprint (cfg: VIEW TView): they hold thousands of entries
 \* and are a function of the events consumed so far (SymFold / SyHandler are deterministic in the table; the
 \* alternatives a step may leave open differ in ca / ab / mp, which the view keeps).
-TView == <<l, base, ca, ab, mp, cw, tl, [sy EXCEPT !.tab = 0, !.loc = 0], en,
+TView == <<l, base, ca, ab, mp, cw, tl, [sy EXCEPT !.tab = 0, !.loc = 0], en, au,
            ph, o, d, glob, keptq, cur, pass1, lastpe, resid, lastst, prevdiag>>
 
 DR == INSTANCE Driver_Trace WITH Wrap <- 0, Leaky <- {}
@@ -70,9 +70,9 @@ Tx(i) == TraceLog[i].tx
 Recs == TraceLog[base].recs            \* kept out of the state: it is large
 
 MineInit == /\ base = 0 /\ ca = CA!InitM /\ ab = AB!InitB(1) /\ mp = InitMP /\ cw = InitW(FALSE) /\ tl = <<>>
-            /\ sy = InitSY /\ en = InitEN
+            /\ sy = InitSY /\ en = InitEN /\ au = InitAU
 MineReset == /\ base' = 0 /\ ca' = CA!InitM /\ ab' = AB!InitB(1) /\ mp' = InitMP /\ cw' = InitW(FALSE) /\ tl' = <<>>
-             /\ sy' = InitSY /\ en' = InitEN
+             /\ sy' = InitSY /\ en' = InitEN /\ au' = InitAU
 \* register 1: how far some behaviour got (index of the first event not consumed); register 2: all consumed
 TInit == l = 1 /\ DR!TInit /\ MineInit /\ TLCSet(1, 1) /\ TLCSet(2, 0)
 
@@ -87,7 +87,7 @@ PassBoundaryResetsEverything(e) ==
   /\ DR!Pass(e)
   /\ ca' = CA!InitM /\ ab' = Reset(e) /\ mp' = StartPass(mp, e.pass) /\ cw' = InitW(e.last /\ e.hasfile)
   /\ LET p == Predefine(IF e.pass = 1 THEN InitSY ELSE sy, e.pass, e.sy) IN p[1] /\ sy' = Quiesce(p[2])
-  /\ en' = InitEN
+  /\ en' = InitEN /\ au' = AuStartPass(au, e.pass)
   /\ base' = l /\ tl' = <<>>
 Pass(e) ==
   /\ (e.last /\ e.hasfile) => CW!WellFormedRecs(e)
@@ -108,9 +108,9 @@ RunBlock(S, i, j) ==
               S, [k \in 1..(j - i + 1) |-> i + k - 1])
 Stmts(j) ==
   /\ ph = "pass"
-  /\ \E n \in RunBlock({[ca |-> ca, ab |-> ab, mp |-> mp, cw |-> cw, d |-> d, sy |-> sy, en |-> en]}, l, j) :
+  /\ \E n \in RunBlock({[ca |-> ca, ab |-> ab, mp |-> mp, cw |-> cw, d |-> d, sy |-> sy, en |-> en, au |-> au]}, l, j) :
        /\ ca' = n.ca /\ ab' = n.ab /\ mp' = n.mp /\ cw' = n.cw /\ d' = n.d /\ ph' = DR!Dead(n.d)
-       /\ sy' = n.sy /\ en' = n.en
+       /\ sy' = n.sy /\ en' = n.en /\ au' = n.au
   /\ prevdiag' = FALSE /\ tl' = <<>>
   /\ UNCHANGED <<base, o, glob, keptq, cur, pass1, lastpe, resid, lastst>>
 
@@ -118,26 +118,29 @@ Stmts(j) ==
 Lines(e) ==
   /\ ph = "pass"
   /\ \E tg \in Deliver(Tx, [tags |-> mp.tags, lc |-> mp.lc], e.pre, 1) : mp' = [mp EXCEPT !.tags = tg.tags, !.lc = tg.lc]
-  /\ UNCHANGED <<base, ca, ab, cw, tl, sy, en, ph, o, d, glob, keptq, cur, pass1, lastpe, resid, lastst, prevdiag>>
+  /\ UNCHANGED <<base, ca, ab, cw, tl, sy, en, au, ph, o, d, glob, keptq, cur, pass1, lastpe, resid, lastst, prevdiag>>
 
 \* diagnostics outside statements (AssembleFile_ExitPass, or the process died inside a statement)
 Outside(e) ==
-  LET fd == FoldDiags(o, d, e.dg, 1)
+  LET fd == FoldDiagsExit(o, d, e.dg, 1, au.fz \/ ~On("ExpectListIsHistory"))
   IN /\ ph = "pass" /\ fd[1]
      /\ d' = fd[2] /\ ph' = DR!Dead(fd[2]) /\ tl' = e.dg /\ prevdiag' = FALSE
-     /\ UNCHANGED <<base, ca, ab, mp, cw, sy, en, o, glob, keptq, cur, pass1, lastpe, resid, lastst>>
+     /\ UNCHANGED <<base, ca, ab, mp, cw, sy, en, au, o, glob, keptq, cur, pass1, lastpe, resid, lastst>>
 
 PassEnd(e) ==
   /\ DR!PassEnd(e)
   /\ e.ifd = Len(ca.stk)
   /\ OpenConstructsAreReported(ca, ab, sy, tl)
-  /\ tl' = <<>> /\ UNCHANGED <<base, ca, ab, mp, cw, sy, en>>
+  /\ ExpectEndsWithPass(d, tl)
+  /\ PhaseErrorForcesRepass(au, e)
+  /\ tl' = <<>> /\ UNCHANGED <<base, ca, ab, mp, cw, sy, en, au>>
 
 \* LastPassImageEqualsFile, second half: a code file that is kept was compared, and nothing is left in it
 FileEnd(e) ==
   /\ DR!FileEnd(e)
   /\ Claim("LastPassImageEqualsFile", (e.kept = 1) => cw.on)
   /\ (cw.on => StreamDone(Recs, cw))
+  /\ (cw.on => EndSetsEntry(au, TraceLog[base].entries))
   /\ FinalTableIsListed(sy, e)
   /\ UNCHANGED mine
 
